@@ -79,6 +79,8 @@ def lift(x):
         if is_special(x):
             raise NotModelled('special float %r in a symbolic term' % x)
         return _rv(x)
+    if getattr(x, 'shape', None) == () and hasattr(x, 'item'):
+        return lift(x.item())
     if hasattr(x, '__index__'):
         return z3.IntVal(int(x))
     raise NotModelled('cannot lift %r' % (type(x),))
@@ -95,10 +97,16 @@ def _coerce2(a, b):
     a, b = _arith(a), _arith(b)
     if a.sort() != b.sort():
         if z3.is_int(a):
-            a = z3.ToReal(a)
+            a = _int_to_real(a)
         if z3.is_int(b):
-            b = z3.ToReal(b)
+            b = _int_to_real(b)
     return a, b
+
+
+def _int_to_real(t):
+    if z3.is_int_value(t):
+        return z3.RealVal(t.as_long())
+    return z3.ToReal(t)
 
 
 _UF = {}
@@ -134,8 +142,8 @@ def mul_terms(a, b):
         return a * b
     # product of two symbolic terms: uninterpreted in the main pool,
     # expanded to a real product by the NRA translation (nra.py)
-    a, b = (z3.ToReal(a) if z3.is_int(a) else a,
-            z3.ToReal(b) if z3.is_int(b) else b)
+    a, b = (_int_to_real(a) if z3.is_int(a) else a,
+            _int_to_real(b) if z3.is_int(b) else b)
     if a.get_id() > b.get_id():
         a, b = b, a
     return uf('MUL', R, R, R)(a, b)
@@ -143,8 +151,8 @@ def mul_terms(a, b):
 
 def div_terms(a, b):
     a, b = _coerce2(a, b)
-    a = z3.ToReal(a) if z3.is_int(a) else a
-    b = z3.ToReal(b) if z3.is_int(b) else b
+    a = _int_to_real(a) if z3.is_int(a) else a
+    b = _int_to_real(b) if z3.is_int(b) else b
     if _is_const_term(b):
         c = _const_val(b)
         if c == 0:
@@ -345,7 +353,7 @@ class SV(object):
 
 def _toreal(t):
     t = _arith(t)
-    return z3.ToReal(t) if z3.is_int(t) else t
+    return _int_to_real(t) if z3.is_int(t) else t
 
 
 def _special_arith(sv, o, op, rev):
@@ -665,6 +673,62 @@ class Engine(object):
         self.notes.append('INCONCLUSIVE %s: solver answered unknown' % label)
         return None
 
+    def require_nra(self, alg, goal, label, detail=None, timeout_ms=30000):
+        """Discharge an exp-domain obligation on the UF-free pool (nlsat)."""
+        from . import nra
+        self.stats['obligations'] += 1
+        self.path_obligations += 1
+        lab = self.labels.setdefault(label, [0, 0])
+        lab[0] += 1
+        t0 = time.time()
+        r, dt, m = nra.prove(alg.ctx, self.pc, goal, timeout_ms=timeout_ms)
+        self.stats['solver_s'] += time.time() - t0
+        self.stats['q_' + r] += 1
+        self.stats['nra_queries'] = self.stats.get('nra_queries', 0) + 1
+        if r == 'unsat':
+            self.stats['discharged'] += 1
+            lab[1] += 1
+            return True
+        if r == 'sat':
+            self.stats['failed'] += 1
+            base = {}
+            if self.model is None:
+                rr, mm = self._check()
+                if rr == 'sat':
+                    self.model = mm
+            if self.model is not None:
+                base = self.model_dict(self.model)
+            merged = dict(base)
+            ctx = alg.ctx
+            for name, t in self.inputs + self.apps:
+                k = t.get_id()
+                v = None
+                if k in ctx.evars:
+                    e = _approx(m.eval(ctx.evars[k], model_completion=True))
+                    if e is not None and e > 0:
+                        import math
+                        lv = Fraction(math.log(float(e))).limit_denominator(
+                            10**12)
+                        v = [lv.numerator, lv.denominator]
+                elif k in ctx.rtwin:
+                    e = _approx(m.eval(ctx.rtwin[k], model_completion=True))
+                    if e is not None and e.denominator == 1:
+                        v = int(e)
+                elif z3.is_real(t) and z3.is_const(t):
+                    e = _approx(m.eval(t, model_completion=False))
+                    if e is not None:
+                        v = [e.numerator, e.denominator]
+                if v is not None:
+                    merged[name] = v
+            f = Finding(label, 'nra', detail or str(goal)[:300],
+                        list(self.trace), merged)
+            f.alt_models = [base]
+            self.findings.append(f)
+            return False
+        self.stats['inconclusive'] += 1
+        self.notes.append('INCONCLUSIVE %s: nlsat answered unknown' % label)
+        return None
+
     def fail(self, label, detail):
         """An unconditional failure on this (feasible) path, e.g. an
         exception escaping the code under analysis."""
@@ -768,3 +832,17 @@ def _model_value(v):
         f = Fraction(a.numerator_as_long(), a.denominator_as_long())
         return [f.numerator, f.denominator]
     return str(v)
+
+
+def _approx(v):
+    try:
+        if z3.is_int_value(v):
+            return Fraction(v.as_long())
+        if z3.is_rational_value(v):
+            return Fraction(v.numerator_as_long(), v.denominator_as_long())
+        if z3.is_algebraic_value(v):
+            a = v.approx(20)
+            return Fraction(a.numerator_as_long(), a.denominator_as_long())
+    except Exception:
+        pass
+    return None
